@@ -1170,6 +1170,16 @@ fn run_inner(program: &Program)
         }).collect();
         app.add_reactor(DynBundle::new(&keys), sentinel_system(sentinel_cell.clone()));
     }
+    // ... and in half of those a revokable (reference-counted) one through `World::react`, which the first call made possible
+    let early2 = early && program.setup.n_entities % 4 == 0;
+    let sentinel2_cell = Arc::new(std::sync::atomic::AtomicU32::new(u32::MAX));
+    let mut sentinel2_token: Option<RevokeToken> = None;
+    if early2
+    {
+        let keys = [KeyR::Broadcast(1), KeyR::ResourceMutation(1)];
+        let sys = sentinel_system(sentinel2_cell.clone());
+        sentinel2_token = Some(app.world_mut().react(|rc| rc.on_revokable(Shaped::new(DynBundle::new(&keys)), sys)));
+    }
     app.add_plugins(ReactPlugin);
     app.insert_react_resource(RA(0));
     app.insert_react_resource(RB(0));
@@ -1225,6 +1235,24 @@ fn run_inner(program: &Program)
         let uid = with_case(|case| case.add_system(def.clone(), None, None, None));
         let cmd = app.world_mut().spawn_system_command(full_system::<()>(uid));
         with_case(|case| { case.bind_system_entity(uid, *cmd); case.mid_probe = Some((uid, *cmd)); });
+    }
+    if let Some(token) = sentinel2_token
+    {
+        let def = Arc::new(SysDef{ shape: Shape::Minimal, result: ResKind::Unit, reg_mode: RegMode::Revokable, scripts: Vec::new() });
+        let uid = with_case(|case| case.add_system(def.clone(), None, None, None));
+        sentinel2_cell.store(uid as u32, std::sync::atomic::Ordering::Relaxed);
+        let cmd: SystemCommand = token.clone().into();
+        let keys = vec![Key::Broadcast(1), Key::ResourceMutation(1)];
+        let slot = with_case(|case| { case.bind_system_entity(uid, *cmd); case.tokens.len() as u16 });
+        record_token(token, uid, keys.clone());
+        let world = app.world_mut();
+        let resolved = Resolved::Register{ sys: uid, mode: RegMode::Revokable, api: RegApi::OnRevokable, keys: keys.clone(), token: Some(slot) };
+        let op = Op::Register{ target: RegTarget::Fresh{ template: 0, api: FreshApi::OnRevokable }, bundle: keys };
+        let facts = take_facts(world);
+        make_visible(&resolved);
+        push(Ev::Op{ sender: Sender::Top(u32::MAX), idx: 0, op, resolved, facts });
+        let facts = take_facts(world);
+        push(Ev::OpDone{ sender: Sender::Top(u32::MAX), idx: 0, facts });
     }
     if early
     {
